@@ -1,6 +1,7 @@
 import SV.Model.C01
 import SV.Model.C02
 import SV.Model.C11
+import SV.Model.C05
 import SV.Model.C14
 import SV.Model.C13
 import SV.Model.C04
@@ -25,6 +26,7 @@ def dispatch (prop : String) : Option (String → String) :=
   | "C01" => some C01.Driver.handle
   | "C02" => some C02.Driver.handle
   | "C11" => some C11.Driver.handle
+  | "C05" => some C05.Driver.handle
   | "C14" => some C14.Driver.handle
   | "C13" => some C13.Driver.handle
   | "C04" => some C04.Driver.handle
